@@ -22,4 +22,7 @@ type Entry[MetadataT any] struct {
 	Data     EntryData
 	Metadata *EntryMetadata[MetadataT]
 	Stale    bool // Indicates if the entry is stale, meaning it has expired but is still present in the cache.
+	// The expiry of the entry as read under its lock when the entry was handed out.
+	// Metadata.Expires itself may be renewed concurrently by UpdateMetadata.
+	Expires time.Time
 }
